@@ -4,7 +4,7 @@ from geomgen import *
 
 ID = "C08"
 THEOREM_MODULE = "SimVerif.Props.C08"
-THEOREM_MODULES = ["SimVerif.Props.C08", "SimVerif.Props.C08b", "SimVerif.Tie.Radius", "SimVerif.Tie.Inter"]
+THEOREM_MODULES = ["SimVerif.Props.C08", "SimVerif.Props.C08b", "SimVerif.Props.C08c", "SimVerif.Tie.Radius", "SimVerif.Tie.Inter"]
 NONTRIVIAL_FLAGS = {"overlap", "rotated", "nested", "identical", "near-disjoint", "axis-aligned"}
 RULE = ("`geom inter u1 u2` (10% as `interstale`: both boxes carry a vertex cache generated under another geometry): pairs in general position, overlapping, nested, identical, touching (shared edge/corner, exact coordinates), edge-sharing in a rotated frame, far apart, "
         "large coordinates, tiny boxes; angles None, 0, k*pi/2, |angle|>2pi; the executor evaluates too_far, intersection and IoU in both argument orders and dist_in_2r; "
@@ -14,9 +14,9 @@ TRUSTED_BASE = ["Lean 4.33 kernel", "axioms: propext, Quot.sound, Classical.choi
                 "cos/sin are the implementation's f64 values used as exact rationals; areas compared under tolerance 1e-6 of the smaller box area; decisions exact outside a 1e-5 guard band around the too-far boundary",
                 "independent exact reference in the driver (convex polygon intersection by vertex/edge-crossing enumeration + monotone-chain hull, over Rat) — executable, unproved"]
 ASSUMPTIONS = ["positive aspect and height; finite values", "exactness / symmetry / range for arbitrary rotated pairs are decided by comparison with the exact reference (C08_full is stated, not proved): the convex-region semantics of Sutherland-Hodgman is not formalised"]
-PARTIAL = ["C08_full (reported area = measure of the set intersection, hence symmetry and range, for arbitrary rotated pairs) is NOT proved; proved: axis-aligned closed-form laws, too_far sqrt-free equivalence and soundness, invariance of the whole clipping pipeline / intersection under common rigid motions (C08_rigid_invariant, C08_intersection_rigid), identical boxes give IoU 1 (C08_identical)"]
+PARTIAL = ["C08_full (reported area = measure of the set intersection, hence symmetry and range, for arbitrary rotated pairs) is NOT proved; proved: axis-aligned closed-form laws, too_far sqrt-free equivalence and soundness, invariance of the whole clipping pipeline / intersection under common rigid motions (C08_rigid_invariant, C08_intersection_rigid), identical boxes give IoU 1 (C08_identical), soundness of the clip (C08_clip_sound, Props/C08c: every vertex of the polygon whose area is reported lies in both closed rectangles — the inclusion result ⊆ A ∩ B; the half-planes of a box's edges are shown to cut out exactly the rectangle, inBox_iff); the converse inclusion and shoelace = measure remain open"]
 LEVEL_TEXT = ("Lean 4 theorems over ordered fields: axis-aligned closed form (0<=I<=min area, 0<=IoU<=1, symmetric, 1 on identical boxes, I=0 iff interiors disjoint, translation invariant); "
-              "too_far in sqrt-free form equals the code's test and never rejects two boxes sharing a point; the whole Sutherland-Hodgman pipeline (clip passes, shoelace, too_far, intersection) is invariant under a common translation+rotation of both boxes; identical boxes have IoU exactly 1; "
+              "too_far in sqrt-free form equals the code's test and never rejects two boxes sharing a point; the whole Sutherland-Hodgman pipeline (clip passes, shoelace, too_far, intersection) is invariant under a common translation+rotation of both boxes; identical boxes have IoU exactly 1; every vertex of the Sutherland-Hodgman result lies in both closed rectangles for every pair of boxes (clip soundness: intersection points are convex combinations of consecutive vertices and lie on the clip edge); "
               "IoU absent iff intersection 0. For rotated pairs the implementation is compared with an exact rational polygon-intersection reference (partial: see DESIGN).")
 LEVEL_NOTE = "Trusted: Lean kernel; model<->code tie sampled; float rounding under tolerance; rotated-pair exactness rests on the unproved exact reference."
 TECHNIQUE = "Lean 4 proof (ordered-field algebra, linear_combination with c^2+s^2=1) with differential correspondence check against an exact rational reference"
